@@ -168,7 +168,16 @@ def api_wrong_kind(vals=None, out=None):
     return res[0][0] == "OK" or res[2][0] == "OK", {"script": "set_preference(Rate,true); set_preference(Verbosity,false)", "results": res}
 
 
+def kernel(run, crate_name):
+    """-> (crate, lemmas) of the setter kernel; also used by C08 (panic freedom of set_preference)."""
+    return _build(run, crate_name, only_kernel=True)
+
+
 def build(run):
+    return _build(run, "c12prefs")
+
+
+def _build(run, crate_name, only_kernel=False):
     run.outside += ["persistence across set_mathml and effects on outputs (whole session)", "prefs.yaml re-reading, file selection (file system)",
                     "Language / LanguageAuto normalisation (string splitting before the kernel)"]
     prefs = slicer.Source.get("src/prefs.rs")
@@ -183,7 +192,7 @@ def build(run):
     dl = "static DEFAULT_LANG: Yaml = Yaml::String(String::new());\n"
     body = prelude.STR_STUBS + SHIM + dl + "\n".join(c.text for c in consts) + "\nimpl PreferenceManager {\n" + "\n".join(m.text for m in meths) + "\n}\n" + \
         HARNESS.replace("LOWER_STMT", lower.text).replace("DISPATCH_EXPR", dispatch.text)
-    crate = kani_run.Crate("c12prefs", body)
+    crate = kani_run.Crate(crate_name, body)
     run.bound("K-C12-a", "set_string_pref: the preference absent or holding ANY scalar kind (string / boolean / number) in either map; "
               "dispatch: name in {Verbosity (string), Blind (boolean), Rate (number), NoSuch} x value in {true, False, Terse, 1.5}")
     run.assume("HashMap<String,Yaml> replaced by a 4-slot association list keyed by (length, first byte) of the name, injective on the six names used; yaml_rust::Yaml by an enum with the same four scalar kinds and as_str/as_bool",
@@ -212,7 +221,7 @@ def build(run):
         if r == "panic-on-non-string-stored-value":
             return api_panic()
         return True, "no API recipe for role " + r
-    run.kani(crate, [
+    lemmas = [
         dict(id="K-C12-a.set_string_pref", harness="set_string_pref_total", role=role, api=api,
              covers=["string preference set reachable", "file-change failure reachable", "string preference holding a boolean reachable"],
              claim="set_string_pref from any stored kind: no panic; Ok => known name and the new value is stored; Err => nothing changed"),
@@ -220,7 +229,10 @@ def build(run):
              covers=["False reaches the boolean setter", "number reaches the float setter", "rejection reachable"],
              exclusions={"unknown-name-accepted": "UNKNOWN_NAME", "wrong-kind-accepted": "WRONG_KIND"},
              claim="the dispatch of set_preference calls exactly one setter, normalises booleans, and reaches the unchecked boolean/float setters only for a known name of that kind"),
-    ], timeout=900)
+    ]
+    if only_kernel:
+        return crate, lemmas
+    run.kani(crate, lemmas, timeout=900)
 
     # ---- Z-C12-b: the locale table of set_separators is closed under the normalisation applied to language tags ----------
     setsep = imp.find("fn set_separators")
